@@ -100,6 +100,9 @@ func StructConfigs(thorough bool, caches []string, formats []string) []*world.Co
 	cs = append(cs, world.Uint8Cfg(2, []uint8{2, 10, 100, 9, 200}, formats[len(formats)-1], "none"))
 	// a comparator answering -3/0/3
 	cs = append(cs, world.Wide(world.UintCfg(2, urange(1, 5), 1, formats[len(formats)-1], "none")))
+	// failing MakeRoot calls (a class of Store calls or one Marshal call fails) anywhere in the history
+	cs = append(cs, world.WithFlushFaults(world.UintCfg(2, urange(1, 4), 1, f0, "none")))
+	cs = append(cs, world.WithFlushFaults(depth(world.UintCfg(2, urange(1, 4), 1, formats[len(formats)-1], "big"), 6)))
 	return cs
 }
 
@@ -286,6 +289,9 @@ func C13Configs(thorough bool) []*world.Config {
 	cfgs = append(cfgs, world.UintCfg(3, ulist(1, 2, 3, 4, 6, 9), 1, B, "none"))
 	// slice values: re-inserting an equal value must be recognised as "nothing modified"
 	cfgs = append(cfgs, world.IntCfg(2, []int{1, 2, 3, 4}, []interface{}{[]int{1}, []int{2, 3}}, []int{}, M, "none"))
+	cfgs = append(cfgs, world.IntCfg(2, []int{1, 2, 4}, []interface{}{[]byte(nil), []byte{}}, []byte{}, B, "none"))
+	cfgs = append(cfgs, world.WithFlushFaults(world.UintCfg(2, urange(1, 4), 1, B, "none")))
+	cfgs = append(cfgs, world.WithFlushFaults(depth(world.UintCfg(2, urange(1, 4), 1, M, "big"), 6)))
 	cfgs = append(cfgs, world.UintCfg(2, ulist(1, 2, 4), 1, B, "big"))
 	cfgs = append(cfgs, depth(world.UintCfg(2, urange(1, 5), 1, M, "big"), 7))
 	for _, l := range lkeyQuick[:4] {
